@@ -11,7 +11,7 @@ Property theorems only (helper lemmas are in `Lemmas/Resample.lean`). The model
 `(x, y, z, t)` with `t = timestamp.toAbsTime()`; the stamp of an output is the C03 model (`stampOf`). All
 statements are over an arbitrary linearly ordered field (ℚ, ℝ): for every track, every list of instants, every step.
 Sections: T1–T4 (temporal / spatial), D1–D4 (degenerate requests), S1 (millisecond stamps), T3d (pauses),
-O1–O5 (callers), T4c / T4' (the clamp of the interpolated time, fix 20ed89f: a no-op in exact arithmetic; what it
+O1–O5 (callers), T5 (the forms giving a number of points: the property's answer for the step the output exhibits), T4c / T4' (the clamp of the interpolated time, fix 20ed89f: a no-op in exact arithmetic; what it
 guarantees in ANY arithmetic), T2' / T3e / S2 (repeated timestamps: the interpolant in the original order of the fixes, legs travelled
 in no time, the calendar stamps of a spatially resampled track never decrease).
 
